@@ -197,7 +197,13 @@ where
                 let mut r = Report::new(rule);
                 let mut i = t as u64;
                 while i < n {
-                    f(i, rng::derive(seed, stream, i), &mut r);
+                    // a panic of the harness itself (never of the library: those are caught at the call) must not
+                    // take the run down as a crash: it makes the run inconclusive
+                    let res = std::panic::catch_unwind(std::panic::AssertUnwindSafe(|| f(i, rng::derive(seed, stream, i), &mut r)));
+                    if res.is_err() {
+                        r.inconclusive.push(format!("the harness itself panicked in case ({}, {})", stream, i));
+                        break;
+                    }
                     // stop early once a thread has plenty of witnesses
                     if r.violations.len() >= 45 {
                         break;
